@@ -45,7 +45,15 @@ K07 = [
         "app/__init__.py": "", "app/settings.py": "top = 1\n", "app/util.py": "{0} = 2\n",
         "app/core/__init__.py": "", "app/core/helpers.py": "hh = 3\n", "app/core/util.py": "{1} = 4\n",
         "app/core/runner.py": "from . import helpers\nfrom .. import settings\nfrom .util import {1} as {2}\nfrom ..util import {0} as {3}\nprint(helpers.hh, settings.top, {2}, {3})\n"}),
-     ["organize_imports@app/core/runner.py", "handle_long_imports@app/core/runner.py"]),
+     ["organize_imports@app/core/runner.py", "handle_long_imports@app/core/runner.py", "froms_to_imports@app/core/runner.py"]),
+    # several names in one relative from-import (split_imports rebuilds one statement per name), with a
+    # top-level module of the same name that an absolute import would reach instead; one unused name
+    (sk("k10_relative_multi_name", "import app.user\n", {
+        "helpers.py": "{0} = 'top0'\n{1} = 'top1'\nextra = 'topx'\n",
+        "app/__init__.py": "", "app/helpers.py": "{0} = 'pkg0'\n{1} = 'pkg1'\nextra = 'pkgx'\n",
+        "app/sub/__init__.py": "", "app/sub/deep.py": "from ..helpers import {0} as {2}, {1}, extra\nfrom .. import helpers\nval = ({2}, {1}, helpers.extra)\n",
+        "app/user.py": "from .helpers import {0}, {1} as {3}, extra\nfrom .sub.deep import val\nprint({0}, {3}, val)\n"}),
+     ["organize_imports@app/user.py", "organize_imports@app/sub/deep.py", "!handle_long_imports@app/user.py", "!relatives_to_absolutes@app/sub/deep.py", "!froms_to_imports@app/user.py"]),
 ]
 
 
@@ -55,6 +63,10 @@ def instances(tier):
     out = []
     for k, (s, actions) in enumerate(K07):
         for a in actions:
+            if a.startswith("!"):  # thorough only
+                if tier != "thorough":
+                    continue
+                a = a[1:]
             for suf, slot in len2_variants(s, tier):
                 out.append(("%s.%s%s" % (s.name, a.replace("/", "_"), suf), dict(k=k, action=a, len2=slot)))
     return out
